@@ -92,10 +92,15 @@ let op_mz_msg a =
   let zp = match str a "zp" "" with
     | "" -> (match mz_opt_zone (str a "oz" "-") with None -> MzZEmpty | Some z -> MzZKnown z)   (* the harness sends the object's own zone *)
     | "e" -> MzZEmpty | "x" -> MzZUnknown | z -> MzZKnown (mz_nat (int_of_string z)) in
-  let o = mz_run_obj_i t c s (mz_decode_om a m) ts (mz_index meth) zp in
+  let om = mz_decode_om a m in
+  let o = mz_run_objk_i t c s om ts (mz_index meth) zp (str a "ro" "c" <> "x") in
   let cz = if str a "cz" "" = "" then "" else
     (match mz_created_zone o (mz_opt_zone (str a "cz" "-")) zp with None -> " cz=-" | Some z -> Printf.sprintf " cz=%d" (mz_int z)) in
-  emit (Printf.sprintf "msg rlp=%d app=%d%s" (b2i o.mz_rlp) (b2i o.mz_applied) cz)
+  let chz = if num a "chz" 0 = 0 then "" else
+    (match mz_changed_zones o om with
+     | [] -> " chz=."
+     | l -> " chz=" ^ String.concat "," (List.sort_uniq compare (List.map (function None -> "n" | Some z -> string_of_int (mz_int z)) l))) in
+  emit (Printf.sprintf "msg rlp=%d app=%d%s%s" (b2i o.mz_rlp) (b2i o.mz_applied) chz cz)
 
 let op_mz_zoneless _ = emit "zoneless rejected=1"
 
@@ -140,7 +145,14 @@ let oracle_c13_case script trace =
              mz_int (mz_xoracle t c s m x o)
            end else
              let o = { mz_dropped = false; mz_rlp = (geti "rlp" = 1); mz_applied = (geti "app" = 1) } in
-             mz_int (mz_oracle_i t c s m (mz_index meth) o) in
+             let c1 = mz_int (mz_oracle_i t c s m (mz_index meth) o) in
+             if c1 <> 0 || num a "chz" 0 = 0 then c1 else begin
+               (* every object that changed must be one the sender is entitled to change *)
+               let zs = match tok_val toks "chz" with
+                 | None | Some "." -> []
+                 | Some v -> List.map (fun z -> if z = "n" then None else Some (mz_nat (try int_of_string z with _ -> 0))) (String.split_on_char ',' v) in
+               mz_int (mz_oracle_changed_i t c s m (mz_index meth) zs)
+             end in
          if code <> 0 then
            fail (Printf.sprintf "msg=%d code=%d %s m=%s ep=%s" !idx code
                    (match code with 1 -> "unclassified-method-applied" | 2 -> "applied-not-entitled" | 3 -> "inert-method-had-effect"
@@ -151,6 +163,7 @@ let oracle_c13_case script trace =
                                   | 9 -> "reply-handed-to-foreign-zone"
                                   | 10 -> "local-execution-relayed"
                                   | 11 -> "command-executed-although-accept_commands-is-off"
+                                  | 13 -> "object-changed-sender-not-entitled"
                                   | _ -> "inconsistent")
                    meth (match mz_ep s with None -> "none" | Some _ -> "some"))
          end)
